@@ -104,6 +104,20 @@ def default_params(name, rng, d):
     raise KeyError(name)
 
 
+def fix_params(name, params, X, y):
+    """keep data-dependent hyper-parameters inside their documented range for this dataset
+    (RCA_Supervised: n_chunks must not exceed the number of chunks the labelled classes can supply)"""
+    if name == 'RCA_Supervised':
+        yk = np.asarray(y)[np.asarray(y) >= 0]
+        size = int(params.get('chunk_size', 2))
+        mx = int(sum(c // size for c in np.bincount(yk)))
+        if mx * (size - 1) < X.shape[1]:
+            size = 2
+            mx = int(sum(c // 2 for c in np.bincount(yk)))
+        params = dict(params, chunk_size=size, n_chunks=max(1, min(int(params.get('n_chunks', 100)), mx)))
+    return params
+
+
 def fit_args(name, X, y, rng, indices=False):
     """args tuple for fit with formed data; with indices=True returns (index_args, formed_args) where the
     data argument of index_args holds indices into X"""
@@ -186,6 +200,7 @@ def fitted(name, rng, d=None, params=None, dyadic=False, data=None, preprocessor
     p = default_params(name, rng, d)
     if params:
         p.update(params)
+    p = fix_params(name, p, X, y)
     ia, fa = fit_args(name, X, y, rng, indices=True)
     if name.startswith('SDML') and not (params and 'balance_param' in params):
         p['balance_param'] = sdml_safe_balance(name, X, fa, p)
